@@ -499,6 +499,8 @@ func (f *Frame) dbGet(d Term, key Val, st *State) (Val, Term) {
 	healthy := in.dbHealthy(d)
 	st.assume(Implies(healthy, Ite(has, Eq(e, in.errNil()), Eq(e, nf))))
 	st.assume(Implies(Eq(e, in.errNil()), has))
+	// ErrNotFound is reported only for a key that is absent
+	st.assume(Implies(Or(Eq(e, nf), App("err_wraps", SBool, e, nf)), Not(has)))
 	val := in.thawFresh(Select(mc.Val, k), st).(SliceV)
 	// on error the returned slice is nil/empty
 	res := in.D.fresh("dbval_len", SInt)
